@@ -421,6 +421,7 @@ Lemma layout_final_p pad m ms rp w :
     | None, None => True
     | _, _ => False
     end /\
+    (exists r, to_wire_st m o ms rp false pad = Ok r /\ out r = w /\ TableSound w (tbl r)) /\
     (pad = 0 -> forall m2, mid m2 = mid m -> mflags m2 = mflags m -> mopt m2 = mopt m -> mq m2 = map qrec qs ->
        R 1 (man m) ds1 (man m2) -> R 2 (mau m) ds2 (mau m2) -> R 3 (mad m) ds3 (mad m2) -> mtsig m2 = t' ->
        to_wire m2 o ms rp false 0 = Ok w).
@@ -479,7 +480,7 @@ Proof.
     rewrite Z6 in HE8.
     destruct (rr_em_read_x o None tsig_fs kn kn tTSIG cANY 0 rd (negb (opt_padded m pad)) false (hdr ++ body) (tbl r5) et _ OO Logic.I TS5
                          (full_labels_abs kn o NOk) NOk POk SHk HE8)
-      as (_ & _ & _ & _ & kn' & xk & rd' & c1 & rdl & CIk & NOk' & HXk & CIr & _ & _ & A & B & C & E & SLk & RE8).
+      as (TS8 & _ & _ & _ & kn' & xk & rd' & c1 & rdl & CIk & NOk' & HXk & CIr & _ & _ & A & B & C & E & SLk & RE8).
     assert (RR : pad = 0 -> forall m2, mid m2 = mid m -> mflags m2 = mflags m -> mopt m2 = mopt m -> mq m2 = map qrec qs ->
        R 1 (man m) ds1 (man m2) -> R 2 (mau m) ds2 (mau m2) -> R 3 (mad m) ds3 (mad m2) -> mtsig m2 = Some (kn', rd') ->
        to_wire m2 o ms rp false 0 = Ok (out r)).
@@ -518,8 +519,10 @@ Proof.
         split; [exists abso; rewrite app_assoc; apply RRreads_app; exact RO|].
         split; [exact CI|]. split; [exact HW|]. apply pad_opt_ok. exact WO1.
       - symmetry. exact HO. }
-    split; [|split; [split; [exact CIk|exact CIr]|]].
+    split; [|split; [split; [exact CIk|exact CIr]|split]].
     { exists xk. rewrite app_assoc. exists c1, rdl. split; [exact A|]. split; [lia|]. split; [exact B|]. split; [exact C|]. exact E. }
+    { exists r. split; [exact HR|]. split; [rewrite Er; reflexivity|].
+      rewrite Er. cbn [tbl set_out]. rewrite F8t. rewrite app_assoc. exact TS8. }
     intros Hp m2 Hid2 Hfl2 Hopt2 Hq2 HR1 HR2 HR3 Ht2. rewrite (RR Hp m2 Hid2 Hfl2 Hopt2 Hq2 HR1 HR2 HR3 Ht2).
     rewrite Er. reflexivity.
   - (* without TSIG *)
@@ -546,8 +549,9 @@ Proof.
     { destruct (mopt m) as [o'|]; [|reflexivity].
       destruct HO as (sz & RO & CI & HW). destruct WO as (WO1 & _). exists sz. split; [exact RO|].
       split; [exact CI|]. split; [exact HW|]. apply pad_opt_ok. exact WO1. }
-    split; [|split; [exact Logic.I|]].
+    split; [|split; [exact Logic.I|split]].
     { destruct (mopt m) as [o'|]; [reflexivity|exact HO]. }
+    { exists r6. split; [exact HR|]. split; [exact F6o|]. rewrite F6t. exact TS5. }
     intros Hp m2 Hid2 Hfl2 Hopt2 Hq2 HR1 HR2 HR3 Ht2. rewrite (RR Hp m2 Hid2 Hfl2 Hopt2 Hq2 HR1 HR2 HR3 Ht2).
     rewrite F6o. reflexivity.
 Qed.
@@ -618,7 +622,7 @@ Proof.
   intros WQ WA WU WD WO WT H.
   destruct (layout_final_p 0 m ms rp w WQ WA WU WD WO WT H)
     as (qs & ds1 & ds2 & ds3 & owner' & wb & body & e0 & e1 & e2 & e3 & e4 & t' &
-        A1&A2&A3&A4&A5&A6&A7&A8&A9&A10&A11&A12&A13&A14&A15&A16&A17&A18&A19).
+        A1&A2&A3&A4&A5&A6&A7&A8&A9&A10&A11&A12&A13&A14&A15&A16&A17&A18&_&A19).
   exists qs, ds1, ds2, ds3, owner', wb, body, e0, e1, e2, e3, e4, t'.
   repeat (split; [assumption|]).
   split; [|split; [exact A17|split; [exact A18|exact (A19 eq_refl)]]].
@@ -861,7 +865,7 @@ Proof.
   destruct (layout_final_p (fun _ => wf_rrset o) (fun _ => SecDesc o) (fun _ => Rebuilt)
                          (fun sec l r r' file => add_rrsets_chain_x o OO sec l r r' file) pad m ms rp w WQ WA WU WD WO WT H)
     as (qs & ds1 & ds2 & ds3 & owner' & wb & body & e0 & e1 & e2 & e3 & e4 & t' & Ew & Hid & Hfl & L0 & L1 & L2 & L3 &
-        QC & C1 & C2 & C3 & QD & SD1 & SD2 & SD3 & HO & HT & TE & _).
+        QC & C1 & C2 & C3 & QD & SD1 & SD2 & SD3 & HO & HT & TE & _ & _).
   assert (X : exists oo, opt_rel pad oo (mopt m) /\ opt_count oo = opt_count (mopt m) /\
               match oo with
               | Some o' => (exists abs', RRreads o o w e3 abs' owner' tOPT (opayload o') (oflags o') [FRest] [PB wb] e4) /\
@@ -944,6 +948,18 @@ Proof.
 Qed.
 
 (* the compression table at the end of rendering is sound w.r.t. the final octets *)
+Theorem render_table_sound_pad_lemma pad m ms rp r :
+  WfMsg o m -> wf_tsig m -> to_wire_st m o ms rp false pad = Ok r -> TableSound (out r) (tbl r).
+Proof.
+  intros WF WT HR. pose proof WF as [W0 WQ WA WU WD KA KU KD WO].
+  assert (H : to_wire m o ms rp false pad = Ok (out r)) by (unfold to_wire; rewrite HR; reflexivity).
+  destruct (layout_final_p o OO (fun _ => wf_rrset o) (fun _ => SecDesc o) (fun _ => Rebuilt)
+                         (fun sec l r r' file => add_rrsets_chain_x o OO sec l r r' file) pad m ms rp (out r) WQ WA WU WD WO WT H)
+    as (qs & ds1 & ds2 & ds3 & owner' & wb & body & e0 & e1 & e2 & e3 & e4 & t' & _ & _ & _ & _ & _ & _ & _ &
+        _ & _ & _ & _ & _ & _ & _ & _ & _ & _ & _ & (r2 & HR2 & _ & TS) & _).
+  assert (r2 = r) by congruence. subst r2. exact TS.
+Qed.
+
 Theorem render_table_sound_lemma m ms rp r :
   WfMsg o m -> mtsig m = None -> to_wire_st m o ms rp false 0 = Ok r -> TableSound (out r) (tbl r).
 Proof.
